@@ -141,7 +141,10 @@ def run_hist(case):
             k = op[0]
             if k == "add":
                 bx = Box(op[1], len(seq))
-                plane.add(bx)
+                if len(op) > 2 and op[2]:
+                    plane.extend(iter([bx]))
+                else:
+                    plane.add(bx)
                 seq.append([bx, True, tuple(op[1])])
                 if on_line(op[1]):
                     nt = True
@@ -160,7 +163,11 @@ def run_hist(case):
                 if not dead:
                     continue
                 e = dead[op[1] % len(dead)]
-                plane.add(e[0])
+                if len(op) > 2 and op[2]:
+                    plane.extend([e[0]])  # the bulk form of add
+                    classes.append("re-add-via-extend")
+                else:
+                    plane.add(e[0])
                 seq.remove(e)
                 e[1] = True
                 seq.append(e)
@@ -233,8 +240,8 @@ def hist_cases(draw, steps):
     )
     box = st.tuples(xs, ys, xs, ys).map(lambda r: (min(r[0], r[2]), min(r[1], r[3]), max(r[0], r[2]), max(r[1], r[3])))
     op = st.one_of(
-        st.tuples(st.just("add"), box), st.tuples(st.just("add"), box),
-        st.tuples(st.just("remove"), st.integers(0, 1000)), st.tuples(st.just("readd"), st.integers(0, 1000)),
+        st.tuples(st.just("add"), box), st.tuples(st.just("add"), box, st.booleans()),
+        st.tuples(st.just("remove"), st.integers(0, 1000)), st.tuples(st.just("readd"), st.integers(0, 1000), st.booleans()),
         st.tuples(st.just("find"), box), st.tuples(st.just("find"), box),
         st.tuples(st.just("iter")), st.tuples(st.just("len")), st.tuples(st.just("in"), st.integers(0, 1000)),
     )
